@@ -19,11 +19,13 @@ type calleeInfo struct {
 	ptypes   []types.Type
 	dynamic  bool
 	bindings []ssa.Value
+	cc       *ssa.CallCommon
 }
 
 func (c *fnCtx) resolveCallee(cc *ssa.CallCommon) calleeInfo {
 	var ci calleeInfo
 	ci.sig = cc.Signature()
+	ci.cc = cc
 	if cc.IsInvoke() {
 		ci.key, ci.con = c.g.ifaceContract(cc.Value.Type(), cc.Method)
 		ci.names = []string{"self"}
@@ -198,7 +200,18 @@ func (c *fnCtx) callMods(cc *ssa.CallCommon) (mods []string, all bool) {
 		if ci.con.ModAll {
 			return nil, true
 		}
-		return c.staticModComps(ci), false
+		mods = append(c.staticModComps(ci), ci.con.GhostComps...)
+		if ci.con.ModCallbacks {
+			ms := c.g.externalCallMods(c.fn, cc)
+			if ms.all {
+				return nil, true
+			}
+			for m := range ms.comps {
+				mods = append(mods, m)
+			}
+			sort.Strings(mods)
+		}
+		return mods, false
 	}
 	ms := c.g.modSetOfCall(c.fn, cc)
 	if ms.all {
@@ -265,6 +278,9 @@ func (c *fnCtx) modItemComps(ci calleeInfo, item string) []string {
 	}
 	if strings.HasPrefix(item, "$mem:") || strings.HasPrefix(item, "$ghost:") {
 		if strings.HasPrefix(item, "$ghost:") {
+			if ci.con != nil {
+				item = c.g.expandGhostComp(ci.con.Pkg, item)
+			}
 			if _, known := c.g.compKT[item]; !known {
 				c.g.compKT[item] = compKT{KBool, nil} // literal ghost components are Bool-valued sets
 			}
@@ -469,6 +485,9 @@ func (c *fnCtx) applyContract(st *State, ci calleeInfo, args []SymVal, rt types.
 		c.declare(n, "Int")
 		st.ghost[gm] = n
 	}
+	for _, gc := range con.GhostComps {
+		c.havocComp(st, gc)
+	}
 	if !con.HasMod {
 		// no modifies clause: use the computed mod-set of the callee if it has a body
 		if ci.fn != nil {
@@ -497,6 +516,26 @@ func (c *fnCtx) applyContract(st *State, ci calleeInfo, args []SymVal, rt types.
 		bind(env)
 		for _, m := range con.Modifies {
 			c.havocItem(st, env, ci, m)
+		}
+		if con.ModCallbacks {
+			// the callee writes only through the methods / functions handed to it
+			if ci.cc == nil {
+				c.havocAll(st)
+			} else if ms := c.g.externalCallMods(c.fn, ci.cc); ms.all {
+				c.havocAll(st)
+			} else {
+				var ks []string
+				for m := range ms.comps {
+					ks = append(ks, m)
+				}
+				sort.Strings(ks)
+				for _, m := range ks {
+					if strings.HasPrefix(m, "$g:") {
+						continue
+					}
+					c.havocComp(st, m)
+				}
+			}
 		}
 		if !con.Pure {
 			c.bumpTop(st)
@@ -530,7 +569,10 @@ func (c *fnCtx) applyContract(st *State, ci calleeInfo, args []SymVal, rt types.
 	if nres > 0 {
 		res = c.freshVal(st, rt, "r_"+short)
 	}
-	for _, e := range con.Ensures {
+	for _, a := range con.Abstractions {
+		c.assumedUsed["abstraction of "+ci.key+" (not verified against its body): "+a.Label] = true
+	}
+	for _, e := range append(append([]Clause{}, con.Ensures...), con.Abstractions...) {
 		env := c.newEnv(st, pre)
 		env.calleePkg = con.Pkg
 		bind(env)
